@@ -92,9 +92,11 @@ class Explorer:
         self.index = index
         self.contracts = contracts
         self.by_target = {}
+        self.by_target_all = defaultdict(list)      # several contracts may share a target (disjoint operand types)
         for c in contracts.values():
             if c.target:
                 self.by_target[c.target] = c
+                self.by_target_all[c.target].append(c)
         self.invariants = invariants
         self.types = TypeParser(index, ['fpy2.number', 'fpy2.utils', 'fpy2', 'fpy2.ast', 'fpy2.analysis'])
         self.intrinsics = Intrinsics(self)
@@ -188,10 +190,56 @@ class Explorer:
     def external_contract(self, name):
         return self.externals.get(name)
 
-    def contract_for(self, info: FunctionInfo):
+    def _type_matches(self, v, t) -> bool:
+        from .values import is_boollike, is_fraclike, is_intlike
+        k = t[0]
+        if isinstance(v, Lazy):
+            return True
+        if k == 'union':
+            return any(self._type_matches(v, a) for a in t[1])
+        if k == 'int':
+            return is_intlike(v)
+        if k == 'bool':
+            return is_boollike(v)
+        if k == 'float':
+            return isinstance(v, (float, SymFloat))
+        if k == 'frac':
+            return is_fraclike(v)
+        if k == 'none':
+            return v is None
+        if k == 'obj':
+            return isinstance(v, SObj) and v.cls is not None and self.index.is_subclass(v.cls, t[1])
+        if k == 'enum':
+            return isinstance(v, EnumV) and v.cls == t[1]
+        return True
+
+    def _select_contract(self, P, info: FunctionInfo, args, kwargs):
+        """among several contracts of one target: the first whose declared parameter types fit the actual arguments"""
+        try:
+            bound = self.bind_target(P, info, args, kwargs or {})
+        except SymRaise:
+            return None
+        for c in self.by_target_all[info.qualname]:
+            ok = True
+            for p_, tstr in c.params.items():
+                if p_ not in bound:
+                    continue
+                t = self.types.parse_str(tstr, info.module.name, info.cls)
+                if not self._type_matches(bound[p_], t):
+                    ok = False
+                    break
+            if ok:
+                return c
+        return None
+
+    def contract_for(self, info: FunctionInfo, P=None, args=None, kwargs=None):
         c = self.by_target.get(info.qualname)
         if c is None:
             return None
+        if P is not None and len(self.by_target_all[info.qualname]) > 1:
+            c = self._select_contract(P, info, args, kwargs)
+            if c is None:
+                return None
         cur = self.current
         if c.inline:
             return None
@@ -485,6 +533,18 @@ class Explorer:
         else:
             g = as_z3bool(goal)
         formulas = list(facts_pc) + [z3.Not(g)]
+        if self.current is not None and self.current.opts.get('solve_eqs'):
+            # opt-in preprocessing: eliminate constants defined by equalities (callee post `r.f == term`)
+            # before the pow2/bl axioms are instantiated; equisatisfiable, so `unsat` is preserved
+            try:
+                goal_ = z3.Goal()
+                for f in formulas:
+                    goal_.add(f)
+                sub = z3.Then('simplify', 'solve-eqs')(goal_)
+                if len(sub) == 1:
+                    formulas = [f for f in sub[0]] or [z3.BoolVal(True)]
+            except z3.Z3Exception:
+                pass
         ax, _ = theory.instantiate(formulas)
         s = z3.Solver()
         s.set('timeout', timeout_ms or self.timeout_ms)
